@@ -221,12 +221,62 @@ def traces(g, env, call_args=(), max_paths=64, max_steps=600):
     trace(). A rule then quantifies over the walks of a row (every walk must ... / no walk may ...)."""
     out = []
 
-    def walk(n, env, visited, calls, steps):
+    def route_exception(n, exc_node):
+        """the node where a `raise X` executed at CFG node n continues: the first matching handler of the enclosing try
+        (by class name; Exception / BaseException / bare catch everything raised here), else the function's exception exit"""
+        name = None
+        e = exc_node.exc
+        if isinstance(e, ast.Call):
+            e = e.func
+        if isinstance(e, (ast.Name, ast.Attribute)):
+            name = ast.unparse(e).split(".")[-1]
+        cur = [t for (t, lab) in g.nodes[n].succ if lab == "exc"]
+        seen = set()
+        while cur:
+            d = cur.pop(0)
+            if d in seen:
+                continue
+            seen.add(d)
+            dn = g.nodes[d]
+            if dn.kind == "handler":
+                h = dn.ast
+                types = []
+                if h.type is not None:
+                    for t_ in (h.type.elts if isinstance(h.type, ast.Tuple) else [h.type]):
+                        types.append(ast.unparse(t_).split(".")[-1])
+                if h.type is None or name in types or "Exception" in types or "BaseException" in types:
+                    return d
+                continue
+            if dn.kind == "dispatch":
+                hs = [t for (t, lab) in dn.succ if g.nodes[t].kind == "handler"]
+                for h_ in hs:
+                    r = route_exception_handler(h_, name)
+                    if r is not None:
+                        return r
+                cur.extend(t for (t, lab) in dn.succ if g.nodes[t].kind != "handler")
+                continue
+            if d == g.xexit:
+                return d
+            cur.extend(t for (t, lab) in dn.succ if lab == "exc")
+        return g.xexit
+
+    def route_exception_handler(hid, name):
+        h = g.nodes[hid].ast
+        if h.type is None:
+            return hid
+        types = [ast.unparse(t_).split(".")[-1] for t_ in (h.type.elts if isinstance(h.type, ast.Tuple) else [h.type])]
+        return hid if (name in types or "Exception" in types or "BaseException" in types) else None
+
+    def walk(n, env, visited, calls, steps, counts=None):
+        counts = dict(counts or {})
         while True:
             steps += 1
             if steps > max_steps or len(out) >= max_paths:
                 raise Unknown("too many / too long paths")
             node = g.nodes[n]
+            counts[n] = counts.get(n, 0) + 1
+            if counts[n] > 2:
+                out.append(("loop", None, visited, calls)); return
             if n == g.exit:
                 out.append(("fall", None, visited, calls)); return
             if n == g.xexit:
@@ -246,7 +296,7 @@ def traces(g, env, call_args=(), max_paths=64, max_steps=600):
                 except Unknown:
                     for lab in ("T", "F"):
                         for t in g.label_succ(n, lab):
-                            walk(t, dict(env), visited, calls, steps)
+                            walk(t, dict(env), visited, calls, steps, counts)
                     return
             if node.kind == "for":
                 raise Unknown("for loop")
@@ -260,7 +310,11 @@ def traces(g, env, call_args=(), max_paths=64, max_steps=600):
                         val = Unknown
                     out.append(("return", val, visited, calls)); return
                 if isinstance(a, ast.Raise):
-                    out.append(("raise", a, visited, calls)); return
+                    tgt = route_exception(n, a) if a.exc is not None else g.xexit
+                    if tgt == g.xexit or tgt is None:
+                        out.append(("raise", a, visited, calls)); return
+                    n = tgt
+                    continue
                 calls = calls + _calls_in(a, env, call_args)
                 env = dict(env)
                 if isinstance(a, ast.Assign) and len(a.targets) == 1 and isinstance(a.targets[0], (ast.Name, ast.Attribute, ast.Subscript)):
